@@ -9,24 +9,29 @@ from harness.deflate_common import dflplan as D
 H = "harness/C07/h_stream.c"
 
 
-def stream_query(prefix, wrap, chunks, oc, eosmode, flush1, cl, check14=0, witness=False, core=False, fam=None, timeout=None):
+def stream_query(prefix, wrap, chunks, oc, eosmode, flush1, cl, check14=0, witness=False, core=False, fam=None, timeout=None, check05=0, table=1):
     n = sum(chunks)
     c1 = chunks[0]
     lits = list(cl)
     classes = lits
     # worst case output: wrapper + 3 blocks of headers/markers + 9 bits per literal
     outcap = D.HDR[wrap] + D.TRL[wrap] + 2 * n + 16
+    if table == 0:
+        outcap += 3 * 112 + 16
     kmax = 3 * outcap // min(oc, outcap) + 12
     hdef = ["C1=%d" % chunks[0], "C2=%d" % chunks[1], "C3=%d" % chunks[2], "OC=%d" % oc, "EOSMODE=%d" % eosmode,
-            "FLUSH1=%d" % flush1, "WRAP=%d" % wrap, "KMAX=%d" % kmax, "OUTCAP=%d" % outcap, "CHECK14=%d" % check14,
+            "FLUSH1=%d" % flush1, "WRAP=%d" % wrap, "KMAX=%d" % kmax, "OUTCAP=%d" % outcap, "CHECK14=%d" % check14, "CHECK05=%d" % check05, "TABLE=%d" % table, "RFC_MAXBLOCKS=8",
             D.cdef("DFL_CLASSES", classes), D.cdef("DFL_TOKLENS", lits), D.cdef("DFL_CLASS_SET", D.STATIC_LIT_CLASSES)]
-    extra = {"collect.0": oc + 2, "wmemset.0": 18, "isal_deflate.0": 4}
+    extra = {"collect.0": oc + 2, "one_call.0": n + 2, "wmemset.0": 18, "isal_deflate.0": 4}
     for i in range(8):
         extra["harness.%d" % i] = kmax + 3
     qid = "%s/%s/i%d-%d-%d/o%d/e%d/f%d/c%s" % (prefix, D.WRAPS[wrap], chunks[0], chunks[1], chunks[2], oc, eosmode, flush1,
                                                "".join("%x" % c for c in lits) or "-")
+    if table == 0:
+        qid += "/default"
     params = dict(harness=H, units=D.UNITS, vunits=D.VUNITS, hdefines=hdef, unwind=3,
-                  unwindset=D.unwindset(n, extra=extra, nblk=3, avail=outcap), witness=witness, flags=D.fs_flags(outcap))
+                  unwindset=D.unwindset(n, extra=extra, nblk=(8 if table == 0 else 3), avail=outcap, exact=(table == 0), dynamic=(table == 0)),
+                  witness=witness, flags=D.fs_flags(outcap))
     if timeout:
         params["timeout"] = timeout
     return Query(qid, D.R, params, core=core, family=fam or prefix, weight=5.0 + kmax / 4.0)
@@ -83,6 +88,11 @@ def plan(tier, ctx):
                                                            witness=(sp == (1, 1, 1) and oc == 7), core=False,
                                                            timeout=(1200 if (wrap == 1 and n == 3) else 400)))
         qs.append(stream_query("S", 1, (1, 1, 0), 8, 0, 1, [8, 9], witness=True, core=True))
+    # default (dynamic) table, empty input: header written while end_of_stream is not yet known (BFINAL toggle
+    # in write_header), header split over output chunks, extra final block
+    for (oc, eos, fl, wrap) in [(64, 1, 0, 0), (8, 1, 0, 1), (2, 0, 0, 3), (1, 1, 0, 1), (64, 1, 1, 1), (9, 0, 1, 0)] + \
+            ([] if quick else [(7, 1, 0, 3), (2, 1, 1, 1), (1, 0, 1, 3), (8, 0, 2, 0)]):
+        qs.append(stream_query("SD", wrap, (0, 0, 0), oc, eos, fl, [], table=0, witness=(oc == 8), core=False, fam="SD", timeout=400))
     seen = set()
     uq = []
     for q in qs:
